@@ -144,4 +144,333 @@ theorem DistLayer.feed_uniq (d : DistLayer) (seen : List Row) (hd : d.dist = .un
           | zero => exact absurd hr h0
           | succ m => simp [tk]
 
+/-! ### UniqCountWriter -/
+
+theorem DistLayer.feed_count (d : DistLayer) (recs : List (Row × Nat)) (hd : d.dist = .uniqCount recs)
+    (rs : List Row) : d.feed rs = { d with dist := .uniqCount (rs.foldl bumpCount recs) } := by
+  induction rs generalizing d recs with
+  | nil => cases d; simp_all [DistLayer.feed]
+  | cons r rs ih =>
+    rw [DistLayer.feed, DistLayer.write]
+    simp only [hd, if_true]
+    exact ih _ _ rfl
+
+theorem foldl_bump_cons (r : Row) (n : Nat) (rest : List (Row × Nat)) (rs : List Row) :
+    rs.foldl bumpCount ((r, n) :: rest) =
+      (r, n + rs.count r) :: (rs.filter (fun x => decide (x ≠ r))).foldl bumpCount rest := by
+  induction rs generalizing n rest with
+  | nil => simp
+  | cons x rs ih =>
+    rw [List.foldl_cons, bumpCount]
+    by_cases hx : r = x
+    · subst hx; simp [ih]; omega
+    · simp [hx, ih, Ne.symm hx]
+
+theorem firstOccurrences_filter (p : Row → Bool) (rs : List Row) :
+    firstOccurrences (rs.filter p) = (firstOccurrences rs).filter p := by
+  induction rs with
+  | nil => rfl
+  | cons r rs ih =>
+    by_cases hp : p r = true
+    · simp only [List.filter_cons, hp, if_true, firstOccurrences, ih, List.filter_filter]
+      congr 1
+      apply List.filter_congr
+      intro x _
+      exact Bool.and_comm _ _
+    · have hp' : p r = false := by simpa using hp
+      simp only [List.filter_cons, hp', Bool.false_eq_true, if_false, firstOccurrences, ih,
+        List.filter_filter]
+      apply List.filter_congr
+      intro x _
+      by_cases hx : x = r
+      · subst hx; simp [hp']
+      · simp [hx]
+
+theorem foldl_bump_nil (rs : List Row) :
+    rs.foldl bumpCount [] = (firstOccurrences rs).map (fun r => (r, rs.count r)) := by
+  match rs with
+  | [] => rfl
+  | r :: rs =>
+    rw [List.foldl_cons, bumpCount, foldl_bump_cons, foldl_bump_nil (rs.filter _),
+      firstOccurrences_filter, firstOccurrences]
+    simp only [List.map_cons, List.count_cons_self]
+    congr 1
+    · rw [Nat.add_comm]
+    · apply List.map_congr_left
+      intro y hy
+      have hyr : y ≠ r := by simpa using (List.mem_filter.mp hy).2
+      rw [List.count_filter (by simpa using hyr), List.count_cons]
+      simp [Ne.symm hyr]
+termination_by rs.length
+decreasing_by
+  have := List.length_filter_le (fun x => decide (x ≠ r)) rs
+  simp only [List.length_cons]; omega
+
+/-! ### the three DISTINCT modes over the TopWriter -/
+
+/-- the DISTINCT layer `buildChain` creates -/
+def distInit : Distinct → DistState
+  | .count => .uniqCount []
+  | .yes => .uniq []
+  | .no => .none
+
+theorem dist_rows (dist0 : Distinct) (t : TopLayer) (h : t.sink.refuseFrom = none) (rows : List Row) :
+    ((({ dist := distInit dist0, sub := t } : DistLayer).feed rows).finish).sub.sink.rows =
+      (tk t.room (dedupSpec dist0 rows)).reverse ++ t.sink.rows := by
+  cases dist0 with
+  | no =>
+    rw [DistLayer.feed_none _ rfl]
+    simp only [distInit, DistLayer.finish, dedupSpec, TopLayer.finish_rows]
+    exact t.feed_rows h rows
+  | yes =>
+    have := DistLayer.feed_uniq { dist := distInit .yes, sub := t } [] rfl h rows
+    rcases this with ⟨⟨seen', hs⟩, hrows⟩
+    rw [DistLayer.finish.eq_def]
+    simp only [hs, TopLayer.finish_rows, hrows, foS_nil, dedupSpec]
+  | count =>
+    rw [DistLayer.feed_count _ [] rfl]
+    simp only [DistLayer.finish, TopLayer.finish_rows, foldl_bump_nil, List.map_map, dedupSpec]
+    rw [t.feed_rows h]
+    rfl
+
+/-! ### SortedWriter -/
+
+theorem Chain.feedStop_sorted (c : Chain) (rev : Bool) (entries : List (List Val × Row))
+    (h : c.sorted = some (rev, entries)) (es : List (List Val × Row)) :
+    c.feedStop es = ({ c with sorted := some (rev, entries ++ es) }, true) := by
+  induction es generalizing c entries with
+  | nil => cases c; simp_all [Chain.feedStop]
+  | cons e es ih =>
+    rcases e with ⟨k, r⟩
+    rw [Chain.feedStop, Chain.write]
+    simp only [h, if_true]
+    rw [ih _ _ rfl]
+    simp
+
+theorem Chain.feedStop_unsorted (c : Chain) (h : c.sorted = none) (es : List (List Val × Row)) :
+    (c.feedStop es).1 = { c with sub := c.sub.feed (es.map (·.2)) } := by
+  induction es generalizing c with
+  | nil => rfl
+  | cons e es ih =>
+    rcases e with ⟨k, r⟩
+    rw [Chain.feedStop, Chain.write, List.map_cons, DistLayer.feed]
+    simp only [h]
+    rcases hw : c.sub.write r with ⟨d', ok⟩
+    cases ok
+    · simp
+    · simp only [if_true]
+      exact ih _ rfl
+
+/-- what the DISTINCT layer receives in total: the sorted entries at `finish`, or the rows as they come -/
+theorem Chain.run_sub (c : Chain) (es : List (List Val × Row)) :
+    ((c.feedStop es).1.finish).sub =
+      (c.sub.feed (match c.sorted with
+        | some (rev, entries) => sortEntries rev (entries ++ es)
+        | none => es.map (·.2))).finish := by
+  rcases hs : c.sorted with _ | ⟨rev, entries⟩
+  · rw [Chain.feedStop_unsorted c hs, Chain.finish]
+    simp only [hs]
+  · rw [Chain.feedStop_sorted c rev entries hs, Chain.finish]
+
+theorem buildChain_run_sub (q : SemQuery) (hsel : q.isUpdate = false) (es : List (List Val × Row))
+    (sink : Sink) :
+    (((buildChain q sink).feedStop es).1.finish).sub =
+      ((({ dist := distInit q.distinct, sub := { top := q.top.map (fun n => (n, 0)), sink := sink } } :
+        DistLayer).feed (orderSpec q es))).finish := by
+  rw [Chain.run_sub]
+  unfold buildChain orderSpec sortEntries distInit
+  simp only [hsel, Bool.false_eq_true, if_false]
+  cases q.orderBy <;> cases q.distinct <;> simp
+
+/-- ORDER BY, DISTINCT and TOP/LIMIT compose as sort, then dedup, then truncate -/
+theorem chain_select_spec (q : SemQuery) (hsel : q.isUpdate = false) (es : List (List Val × Row))
+    (sink : Sink) (h0 : sink = {}) :
+    (((buildChain q sink).feedStop es).1.finish).getSink.rows.reverse = selectSpec q es := by
+  subst h0
+  rw [Chain.getSink, buildChain_run_sub q hsel, dist_rows _ _ rfl]
+  unfold selectSpec truncSpec TopLayer.room
+  cases q.top <;> simp [tk]
+
+/-! ### bookkeeping of the user's writer, for an arbitrary refusal point -/
+
+theorem TopLayer.write_finished (t : TopLayer) (r : Row) :
+    (t.write r).1.sink.finished = t.sink.finished := by
+  unfold TopLayer.write
+  rcases t.top with _ | ⟨cap, nw⟩
+  · exact t.sink.write_finished r
+  · simp only []
+    split
+    · rfl
+    · exact t.sink.write_finished r
+
+theorem TopLayer.write_live (t : TopLayer) (r : Row) (h : t.sink.Live) :
+    ((t.write r).2 = true → (t.write r).1.sink.Live) ∧ (t.write r).1.sink.afterRefusal = 0 := by
+  unfold TopLayer.write
+  rcases t.top with _ | ⟨cap, nw⟩
+  · exact t.sink.write_live r h
+  · simp only []
+    split
+    · exact ⟨fun hf => by simp at hf, h.1⟩
+    · exact t.sink.write_live r h
+
+theorem TopLayer.feed_finished (t : TopLayer) (rs : List Row) :
+    (t.feed rs).sink.finished = t.sink.finished := by
+  induction rs generalizing t with
+  | nil => rfl
+  | cons r rs ih =>
+    rw [TopLayer.feed]
+    have := t.write_finished r
+    rcases hw : t.write r with ⟨t', ok⟩
+    rw [hw] at this
+    cases ok
+    · simpa using this
+    · simp only [if_true]; rw [ih]; exact this
+
+theorem TopLayer.feed_live (t : TopLayer) (rs : List Row) (h : t.sink.Live) :
+    (t.feed rs).sink.afterRefusal = 0 := by
+  induction rs generalizing t with
+  | nil => exact h.1
+  | cons r rs ih =>
+    rw [TopLayer.feed]
+    have := t.write_live r h
+    rcases hw : t.write r with ⟨t', ok⟩
+    rw [hw] at this
+    cases ok
+    · simpa using this.2
+    · simp only [if_true]; exact ih _ (this.1 rfl)
+
+def DistState.isCount : DistState → Bool
+  | .uniqCount _ => true
+  | _ => false
+
+theorem DistLayer.write_finished (d : DistLayer) (r : Row) :
+    (d.write r).1.sub.sink.finished = d.sub.sink.finished := by
+  unfold DistLayer.write
+  rcases d.dist with _ | seen | recs
+  · exact d.sub.write_finished r
+  · simp only []
+    split
+    · rfl
+    · exact d.sub.write_finished r
+  · rfl
+
+theorem DistLayer.write_live (d : DistLayer) (r : Row) (h : d.sub.sink.Live) :
+    ((d.write r).2 = true → (d.write r).1.sub.sink.Live) ∧ (d.write r).1.sub.sink.afterRefusal = 0 := by
+  unfold DistLayer.write
+  rcases d.dist with _ | seen | recs
+  · exact d.sub.write_live r h
+  · simp only []
+    split
+    · exact ⟨fun _ => h, h.1⟩
+    · exact d.sub.write_live r h
+  · exact ⟨fun _ => h, h.1⟩
+
+theorem DistLayer.write_isCount (d : DistLayer) (r : Row) :
+    (d.write r).1.dist.isCount = d.dist.isCount := by
+  rw [DistLayer.write.eq_def]
+  rcases hd : d.dist with _ | seen | recs
+  · simp
+  · simp only []
+    split
+    · simp [hd]
+    · rfl
+  · rfl
+
+theorem DistLayer.feed_finished (d : DistLayer) (rs : List Row) :
+    (d.feed rs).sub.sink.finished = d.sub.sink.finished := by
+  induction rs generalizing d with
+  | nil => rfl
+  | cons r rs ih =>
+    rw [DistLayer.feed]
+    have := d.write_finished r
+    rcases hw : d.write r with ⟨d', ok⟩
+    rw [hw] at this
+    cases ok
+    · simpa using this
+    · simp only [if_true]; rw [ih]; exact this
+
+theorem DistLayer.feed_isCount (d : DistLayer) (rs : List Row) :
+    (d.feed rs).dist.isCount = d.dist.isCount := by
+  induction rs generalizing d with
+  | nil => rfl
+  | cons r rs ih =>
+    rw [DistLayer.feed]
+    have := d.write_isCount r
+    rcases hw : d.write r with ⟨d', ok⟩
+    rw [hw] at this
+    cases ok
+    · simpa using this
+    · simp only [if_true]; rw [ih]; exact this
+
+theorem DistLayer.feed_live (d : DistLayer) (rs : List Row) (h : d.sub.sink.Live) :
+    (d.feed rs).sub.sink.afterRefusal = 0 := by
+  induction rs generalizing d with
+  | nil => exact h.1
+  | cons r rs ih =>
+    rw [DistLayer.feed]
+    have := d.write_live r h
+    rcases hw : d.write r with ⟨d', ok⟩
+    rw [hw] at this
+    cases ok
+    · simpa using this.2
+    · simp only [if_true]; exact ih _ (this.1 rfl)
+
+theorem DistLayer.finish_finished (d : DistLayer) :
+    d.finish.sub.sink.finished = d.sub.sink.finished + 1 := by
+  rw [DistLayer.finish.eq_def]
+  rcases d.dist with _ | seen | recs
+  · rfl
+  · rfl
+  · simp only [TopLayer.finish, TopLayer.feed_finished]
+
+theorem DistLayer.run_live (d : DistLayer) (rs : List Row) (h : d.sub.sink.Live) :
+    ((d.feed rs).finish).sub.sink.afterRefusal = 0 := by
+  rcases hd : d.dist with _ | seen | recs
+  · have h1 := d.feed_isCount rs
+    have h2 := d.feed_live rs h
+    rw [hd] at h1
+    rw [DistLayer.finish.eq_def]
+    rcases hd' : (d.feed rs).dist with _ | seen' | recs'
+    · exact h2
+    · exact h2
+    · rw [hd'] at h1; simp [DistState.isCount] at h1
+  · have h1 := d.feed_isCount rs
+    have h2 := d.feed_live rs h
+    rw [hd] at h1
+    rw [DistLayer.finish.eq_def]
+    rcases hd' : (d.feed rs).dist with _ | seen' | recs'
+    · exact h2
+    · exact h2
+    · rw [hd'] at h1; simp [DistState.isCount] at h1
+  · rw [DistLayer.feed_count d recs hd]
+    simp only [DistLayer.finish, TopLayer.finish]
+    exact TopLayer.feed_live _ _ h
+
+theorem buildChain_sink (q : SemQuery) (sink : Sink) : (buildChain q sink).sub.sub.sink = sink := by
+  unfold buildChain; split <;> rfl
+
+/-- the user's writer is finished exactly once -/
+theorem chain_finish_once (q : SemQuery) (es : List (List Val × Row)) (sink : Sink) :
+    (((buildChain q sink).feedStop es).1.finish).getSink.finished = sink.finished + 1 := by
+  rw [Chain.getSink, Chain.run_sub, DistLayer.finish_finished, DistLayer.feed_finished, buildChain_sink]
+
+/-- the user's writer is never written again after it refused a record -/
+theorem chain_no_write_after_refusal (q : SemQuery) (es : List (List Val × Row)) (sink : Sink)
+    (h : sink.afterRefusal = 0) (hw : ∀ n, sink.refuseFrom = some n → sink.writes < n) :
+    (((buildChain q sink).feedStop es).1.finish).getSink.afterRefusal = 0 := by
+  rw [Chain.getSink, Chain.run_sub]
+  apply DistLayer.run_live
+  rw [buildChain_sink]
+  exact ⟨h, hw⟩
+
+/-- the bound is a prefix of the unbounded result -/
+theorem chain_bound_is_take (q : SemQuery) (hsel : q.isUpdate = false) (n : Nat)
+    (es : List (List Val × Row)) :
+    (((buildChain { q with top := some n } {}).feedStop es).1.finish).getSink.rows.reverse =
+      ((((buildChain { q with top := none } {}).feedStop es).1.finish).getSink.rows.reverse).take n := by
+  have h1 := chain_select_spec { q with top := some n } hsel es {} rfl
+  have h2 := chain_select_spec { q with top := none } hsel es {} rfl
+  rw [h1, h2]
+  rfl
+
 end Rbql
